@@ -1,7 +1,7 @@
 //! Small generated ledgers for the supplementary sanitizer passes (Miri probe, valgrind
 //! memcheck on the release binary): accepted histories written through aliases (interned
 //! strings compared by pointer into the bump arena), rejected ledgers (error paths drop
-//! partially built transactions), include-free so that the in-memory loader suffices.
+//! partially built transactions), grammar-generated texts for the parser and printer, include-free so that the in-memory loader suffices.
 
 use crate::gen::alias::{AliasPlan, RandomNamer};
 use crate::gen::bookgen;
@@ -18,7 +18,13 @@ pub fn dump(n: u64, seed: u64, dir: &str) -> i32 {
             _ => bookgen::P_INFER,
         };
         let (ledger, _, _, _) = bookgen::gen_case(&mut rng, profile);
-        let text = if k % 2 == 0 {
+        let text = if k % 4 == 3 {
+            // a grammar-generated text (every production of doc/syntax.md, hostile whitespace, Unicode)
+            let mut g = crate::gen::syntax::SynGen::new(Rng::for_case(seed, "sanitizer-syntax", k), crate::gen::syntax::FeatSet::ALL);
+            g.allow_include = false;
+            let n = 1 + rng.usize(4);
+            g.file(n).text
+        } else if k % 2 == 0 {
             let plan = AliasPlan::random(&mut rng, &ledger);
             let declared = plan.declare(&ledger);
             let mut namer = RandomNamer::new(&plan, seed ^ k, 60);
